@@ -112,13 +112,18 @@ def setup():
 
 # ---- reference rank --------------------------------------------------------------------------------
 def rank(level_rules, inherited_globals, cmd, is_removal, prefix):
-    """-> (rank | None, child_rules, child_globals)"""
-    cands = list(level_rules) + [g for g in inherited_globals if g not in level_rules]
+    """-> (rank | None, rules in force one level below, [])
+
+    Rules in force below a command, in rank order: scanning the rules of this level in file order, a %global rule is
+    handed down where it stands, and a rule matching the command hands down its children where it stands - so an
+    inherited %global rule written before the matching block rule ranks before that rule's children, one written
+    after it ranks after them ("earlier rule first" by position in the file).  `inherited_globals` is unused for
+    levels below the top (they are already interleaved in level_rules) and kept for the call signature."""
     best = None
-    kids, kglob = [], list(inherited_globals)
-    for i, r in enumerate(cands, start=1):
-        if r.glob and r not in kglob:
-            kglob.append(r)
+    kids = []
+    for i, r in enumerate(level_rules, start=1):
+        if r.glob and r not in kids:
+            kids.append(r)
         direct = rulelang.ref_match(r.pattern, cmd) is not None
         rev = rulelang.ref_match(rulelang.negate_pattern(r.pattern, prefix), cmd) is not None
         if r.order_reverse:
@@ -128,8 +133,8 @@ def rank(level_rules, inherited_globals, cmd, is_removal, prefix):
         elif direct or rev:
             if best is None:
                 best = -i if is_removal else +i
-            kids = kids + list(r.children)
-    return best, kids, kglob
+            kids = kids + [c for c in r.children if c not in kids]
+    return best, kids, []
 
 
 # ---- part P ----------------------------------------------------------------------------------------
